@@ -217,6 +217,25 @@ func runProperty(w *World, prop, tier, vdir string, start time.Time, writeBaseli
 		}
 	}
 	discharge(rs, 8, quickT, fullT)
+	// Second chance under less contention: an obligation that is part of the
+	// claim (discharged on the reference tree) and merely ran out of time in
+	// the parallel phase is solved again, two at a time, with twice the time.
+	// A refuted obligation (sat) is never retried.
+	if !writeBaseline && bp != nil {
+		retried := 0
+		for _, r := range rs {
+			for _, o := range r.Obls {
+				if (o.Status == "timeout" || o.Status == "unknown") && bp.Obligations[o.Name] == "discharged" {
+					o.Status = ""
+					retried++
+				}
+			}
+		}
+		if retried > 0 {
+			fmt.Printf("retrying %d obligation(s) that timed out in the parallel phase\n", retried)
+			discharge(rs, 2, quickT, 2*fullT)
+		}
+	}
 	vacuous := []string{}
 	for _, r := range rs {
 		keep := r.Obls[:0]
